@@ -29,7 +29,8 @@ THEOREMS = ['C11_never_false_success', 'C11_eof_after_ack_falls_back', 'C11_kill
             'C11_io_error_after_ack', 'C11_lost_before_ack', 'C11_complete_exchange_delivered',
             'C11_chunking_irrelevant', 'C11_connection_isolation', 'C11_only_shutdown_stops_the_server',
             'C11_frame_decoder_total', 'C11_start_up_table', 'C11_addr_in_use_proceeds', 'C11_cold_start_delivers',
-            'C11_process_never_false_success', 'C11_failed_probe_does_not_poison']
+            'C11_process_never_false_success', 'C11_failed_probe_does_not_poison',
+            'C11_server_reports_requested_address', 'C11_cold_start_any_address']
 ASSUMPTIONS = [
     'which error kind the kernel reports to the client for a lost peer (clean EOF vs ECONNRESET) is an input of the model (the `ending` of the stream), not derived: observed in the kill leg (a SIGKILLed server that had read the whole request yields EOF) — the claim is PARTIAL there',
     'bytes written by the server before it dies are delivered to the client before the end-of-stream indication (TCP ordering; Linux keeps already queued data readable after an RST)',
@@ -534,16 +535,20 @@ def compare_coldstart(m, i):
         return False
 
 
+ADDR_KINDS = [b'tcp', b'uds_plain', b'uds_symlink', b'uds_dotdot', b'uds_dot', b'uds_abstract']
+
+
 def monitor_coldstart(case, out):
-    k, after_kill = case
+    k, after_kill = case[0], case[1]
+    addr = case[2].decode() if len(case) > 2 else 'tcp'
     if not isinstance(out, list) or len(out) != k or not all(isinstance(r, list) and len(r) == 4 for r in out):
         return ['the cold-start run did not complete normally: %r' % (out,)]
     vs = []
     for n, (cls, kind, code, ok) in enumerate(out):
         if code != 0 or ok != 1:
-            vs.append('no server running, %d clients started together%s: client %d (%s) did not start/find a server '
-                      'and deliver the compile: %s, exit %r, correct object %r'
-                      % (k, ' after a killed server' if after_kill else '', n, cls.decode(), kind.decode(), code, ok))
+            vs.append('no server running (address %s), %d clients started together%s: client %d (%s) did not '
+                      'start/find a server and deliver the compile: %s, exit %r, correct object %r'
+                      % (addr, k, ' after a killed server' if after_kill else '', n, cls.decode(), kind.decode(), code, ok))
     if not any(r[0] == b'started' for r in out):
         vs.append('no client reports having started the server although none was running')
     return vs[:3]
@@ -554,15 +559,20 @@ def gen_coldstart(rng, tier):
     out = []
     for _ in range(reps):
         for k in (1, 2, 6, 12):
-            out.append([k, 0])
-        out.append([1, 1])
-        out.append([12, 1])
-    out.append([12, 0])
+            out.append([k, 0, b'tcp'])
+        out.append([1, 1, b'tcp'])
+        out.append([12, 1, b'tcp'])
+        # the address space: Unix sockets, canonical and non-canonical spellings of the path, abstract names
+        for a in ADDR_KINDS[1:]:
+            out.append([1, 0, a])
+            out.append([1, 1, a])
+            out.append([rng.choice([2, 6]), rng.below(2), a])
+    out.append([12, 0, b'tcp'])
     return out
 
 
 def stats_coldstart(case, out):
-    ks = ['k=%d' % case[0]]
+    ks = ['k=%d' % case[0], 'addr=' + (case[2].decode() if len(case) > 2 else 'tcp')]
     try:
         for r in out:
             ks.append('class=' + r[0].decode())
@@ -721,7 +731,9 @@ def legs(tier):
                  'requests counted, bystander and a later client served by the server (no local fallback)'),
         Leg('coldstart', gen_coldstart, monitor=monitor_coldstart, compare=compare_coldstart, stats=stats_coldstart,
             impl_env=env, shards=4,
-            rule='no server on a fresh port (also right after a SIGKILLed one), k in {1,2,6,12} real clients parked on a '
+            rule='server address in {TCP port, Unix socket path: plain / through a symlinked directory / with .. / with . '
+                 'and a doubled separator, abstract socket}; '
+                 'no server on a fresh address (also right after a SIGKILLed one), k in {1,2,6,12} real clients parked on a '
                  'barrier and released together; the model prints its start-up decision table, every observed client '
                  '(class existing/started/addr_in_use/..., outcome) must be a row of it; the monitor demands exit 0 and '
                  'the correct object from EVERY client'),
